@@ -106,6 +106,32 @@ func main() {
 			}
 		}
 	}
+	if sc.Burst {
+		var all []byte
+		for _, st := range sc.Steps {
+			all = append(all, st.Send...)
+		}
+		_, werr := os.Stdout.Write(all)
+		eof := false
+		for _, st := range sc.Steps {
+			sl := plug.StepLog{Sent: st.Send}
+			if werr != nil {
+				sl.WriteErr = werr.Error()
+			}
+			if !st.NoReply && !eof && werr == nil {
+				raw, _, err := readStanza(in)
+				sl.Reply = raw
+				if err != nil {
+					sl.ReplyEOF = true
+					eof = true
+				}
+			} else if !st.NoReply && eof {
+				sl.ReplyEOF = true
+			}
+			tr.Steps = append(tr.Steps, sl)
+		}
+		sc.Steps = nil
+	}
 	for _, st := range sc.Steps {
 		if st.DelayMs > 0 {
 			time.Sleep(time.Duration(st.DelayMs) * time.Millisecond)
